@@ -186,6 +186,11 @@ def cases(tier):
     return out
 
 
+def interp_cases(tier):
+    """interpreted pass (NUMBA_DISABLE_JIT=1): a few provenance vectors on the pole fan and the antimeridian strip"""
+    return [{"grid": "polefan", "k": 1, "vecs": [0, 4], "tier": "quick"}, {"grid": "amstrip", "k": 1, "vecs": [4, 8], "tier": "quick"}]
+
+
 def selftest_case(tier):
     return {"grid": "amstrip", "k": 2, "vecs": [0, 2], "tier": "quick"}
 
